@@ -607,7 +607,8 @@ def st_qcmp(ctx, n, label="qcmp"):
 
 # ---------------------------------------------------------------- checksum scripts
 
-ALG_UNIVERSE = ["sha1", "SHA1", "Sha1", "md5", "MD5", "a", "A", "b", "a:b", "é", "É", "ǅ", "ǆ", "", "x y", "sha256"]
+ALG_UNIVERSE = ["sha1", "SHA1", "Sha1", "md5", "MD5", "a", "A", "b", "a:b", "é", "É", "ǅ", "ǆ", "", "x y", "sha256",
+                "a:b c", "x:y&z=1", "s:h+1", "u:\u00fc", " md5", "md5 ", "\tsha1", "sha", "sha2", "sha2-256"]
 
 
 def rand_hexbytes(r):
@@ -731,6 +732,20 @@ def st_ptype_near(ctx, n, label="ptype"):
     return out
 
 
+def st_ptype_escaped():
+    """PURL strings whose type spells a known name with one letter percent-encoded (either hex case, either letter
+    case): an encoded type is never valid, whatever it would decode to"""
+    out = []
+    for name in KNOWN_TYPES:
+        for i, c in enumerate(name):
+            for ch in (c, c.upper()):
+                for esc in ("%%%02X" % ord(ch), "%%%02x" % ord(ch)):
+                    s = "pkg:" + name[:i] + esc + name[i + 1:] + "/ns/name@1.0"
+                    out.append(case("parse P " + hx(s), "ptype-escaped", s=s, shape="P"))
+                    out.append(case("parse S " + hx(s), "ptype-escaped", s=s, shape="S"))
+    return out
+
+
 def st_ptype_short(maxlen):
     letters = ["g", "e", "m", "n", "p", "G", "ｍ", "\u212a", "ſ"]
     out = []
@@ -748,6 +763,11 @@ def st_comb(ctx, n, label="comb"):
         for k in range(0, 4):
             for tup in itertools.product(["a", "/", ":", "@"], repeat=k):
                 out.append(case("comb %s %s" % (ident, hx("".join(tup))), "comb-exhaustive", ident=ident, s="".join(tup)))
+    realistic = ["github.com/go-chi/chi/v5", "x/v2", "v2", "a/v10", "a/v1", "a/v02", "a/v2x", "@angular/cli", "@types/node/extra", "org.apache:commons",
+                 ":artifact", "g:g:a", "a/", "/a", "a:", "golang.org/x/text", "k8s.io/api/core/v1", "gopkg.in/yaml.v3"]
+    for ident in IDENTS:
+        for s in realistic:
+            out.append(case("comb %s %s" % (ident, hx(s)), "comb-realistic", ident=ident, s=s))
     for _ in range(n):
         ident = r.pick(IDENTS)
         s = "".join(r.pick(alpha) for _ in range(r.below(10)))
@@ -828,6 +848,8 @@ def cksum_texts(ctx):
             for ch in "+- xXgG_.%/:":
                 out.append("sha1:" + base[:pos] + ch + base[pos + 1:])
                 out.append("md5:00,sha1:" + base[:pos] + ch + base[pos + 1:])
+    out += ["a:b c:00", "x:y&z=1:00ff", "s:h+1:00", "u:\u00fc#:00", "sha1:aa, md5:bb", " md5:bb", "md5:aa, md5:bb", "md5 :00", "\tsha1:00,sha1:11",
+            "sha:aa,sha1:bb", "sha2-256:00ff,sha2:11", "md5:01,md:ff,sha256:00"]
     out += ["sha1:+aFF", "sha1:0x1F", "sha1:1e", "sha1:١٢", "sha1:ａｂ", "a:00,b", "a:00,,b:11", "a::00", ":00", "a:", ","]
     if ctx.tier == "thorough":
         for seq in itertools.product(algs + ["A"], repeat=4):
